@@ -162,17 +162,25 @@ def _run_hash_groups(sim, sim_name, prop, tier, seed, plan, workers):
             env = dict(os.environ)
             env["PYTHONHASHSEED"] = str(hs)
             env["VERIF_NO_REEXEC"] = "1"
+            import tempfile
+            tf = tempfile.NamedTemporaryFile(prefix="verif-worker-", suffix=".json",
+                                             dir="/dev/shm" if os.path.isdir("/dev/shm") else None)
             p = subprocess.Popen([sys.executable, me, "worker", sim_name, prop, tier,
                                   str(seed), stratum, str(lo), str(hi), str(hs)],
-                                 stdout=subprocess.PIPE, env=env)
-            running.append((p, (stratum, lo, hi, hs)))
+                                 stdout=tf, env=env)
+            running.append((p, (stratum, lo, hi, hs), tf))
         still = []
-        for p, job in running:
+        for p, job, tf in running:
             if p.poll() is None:
-                still.append((p, job))
+                still.append((p, job, tf))
                 continue
-            out = p.stdout.read()
+            tf.seek(0)
+            out = tf.read()
+            tf.close()
             if p.returncode != 0:
+                for q, _, _ in running:
+                    if q.poll() is None:
+                        q.kill()
                 raise HarnessError(f"worker {job} exited {p.returncode}")
             results.append((job, json.loads(out)))
         running = still
